@@ -4,6 +4,19 @@ import json, os
 PROPS = [json.loads(l)['id'] for l in open('/verif/properties.jsonl')]
 
 CLAIMED = {
+ 'C13': dict(
+   category='proof',
+   text=('For ANY spectrum over any number of sectors, any combination of the four limits and any valid argsort: per-sector and total counts '
+         'respect D_block/D_total and the tolerance counts; each stage only switches off a prefix of the argsort, hence whenever a value is '
+         'discarded and another kept under the same limit the discarded one is not larger (maximality; ties are the only freedom); non-binding '
+         'limits discard nothing; squared error of the spectrum equals the discarded weight -- Coq theorems about a model of truncation_mask '
+         '(both stages, scalar and dictionary forms with the missing-key rule). Tied to linalg.py by exact correspondence on integer spectra '
+         'with dyadic tolerances, NumPy argsort fed to the model, mask compared element-wise.'),
+   design_ref='DESIGN.md section 6 C13',
+   note=('Trusted: Coq kernel, no axioms; hand-written model tied by correspondence only; numpy.argsort validity; exactness of float products '
+         'for dyadic tolerances. The error identity of the *factorisation* needs U/V (co)isometric (LAPACK premise) and is validated numerically '
+         'per run on svd_with_truncation/eigh_with_truncation; truncate_multiplets heuristics are not modelled.'),
+   technique='Coq proof over hand-written model + exact model/implementation correspondence + numerical premise validation'),
  'C16': dict(
    category='proof',
    text=('The cache is proved (Coq) to refine the undecorated pure function for ALL histories of call / cache_clear / clear_cache / re-wrapping, '
